@@ -57,7 +57,7 @@ def cv_case(draw, tier, estimators=("Lin", "Proba"), fdrs=(0.31,), weak=False):
         "label_enc": draw(st.sampled_from(["pm1", "01", "bool"])),
         "predict_chunk": draw(st.sampled_from([None, None, 17, 50, 50, 1])),
         "readall_chunk": draw(st.sampled_from([None, None, 13, 64])),
-        "sep": 1.2 if weak else draw(st.sampled_from([4.0, 5.0])),
+        "sep": 1.6 if weak else draw(st.sampled_from([4.0, 5.0])),
     }
 
 
@@ -112,7 +112,7 @@ def cap_value(case, dfs):
     return int(per_file * len(dfs))
 
 
-def run_brew(case, tmp, train_fdr=0.23, override=True, max_iter=3, estimator=None, model=None):
+def run_brew(case, tmp, train_fdr=0.23, override=True, max_iter=3, estimator=None, model=None, capture=False):
     """Run mokapot.brew on the generated case with a recording estimator.
     Returns dict(dfs, metas, models, scores, descs, events, cap)."""
     import mokapot
@@ -127,23 +127,31 @@ def run_brew(case, tmp, train_fdr=0.23, override=True, max_iter=3, estimator=Non
             model = recorder.make_model(est, train_fdr=train_fdr, max_iter=max_iter, override=override, shuffle=True)
         cap = cap_value(case, dfs)
         with config_inject.chunk_sizes(predict=case.get("predict_chunk"), readall=case.get("readall_chunk")):
-            res = guarded(
-                mokapot.brew,
-                psms,
-                model,
-                test_fdr=case["test_fdr"],
-                folds=case["folds"],
-                max_workers=case["workers"],
-                rng=case["rng"],
-                subset_max_train=cap,
-                allowed=ALLOWED_BREW,
-                sig="brew",
-            )
+            error = None
+            try:
+                res = guarded(
+                    mokapot.brew,
+                    psms,
+                    model,
+                    test_fdr=case["test_fdr"],
+                    folds=case["folds"],
+                    max_workers=case["workers"],
+                    rng=case["rng"],
+                    subset_max_train=cap,
+                    allowed=ALLOWED_BREW,
+                    sig="brew",
+                )
+            except Rejected as r:
+                if not capture:
+                    raise
+                error = str(r)
+                res = (None, None, None, None)
         _, models, scores, descs = res
         events = list(recorder.LOGS[logname])
     finally:
         recorder.drop_log(logname)
-    return {"dfs": dfs, "metas": metas, "models": models, "scores": scores, "descs": descs, "events": events, "cap": cap}
+    return {"dfs": dfs, "metas": metas, "models": models, "scores": scores, "descs": descs, "events": events, "cap": cap,
+            "error": error}
 
 
 def full_keys(df, meta):
